@@ -550,7 +550,7 @@ func (self *TextCommandConverter) WriteTextSetNXCommandResult(_ ITextProtocol, s
 }
 
 func (self *TextCommandConverter) ConvertTextSetEXCommand(textProtocol ITextProtocol, args []string) (*LockCommand, WriteTextCommandResultFunc, error) {
-	if len(args) < 3 {
+	if len(args) < 4 {
 		return nil, nil, errors.New("Command Parse Args Count Error")
 	}
 
